@@ -179,9 +179,12 @@ func (fs *Filespace) Writer(destPath string) (writer filesystem.Writer, err erro
 		if file, ok = node.(*File); !ok {
 			return nil, goaterr.Errorf("Node %s must be a file", destPath)
 		}
-		file.time = time.Now()
 	}
-	return NewFileHandler(file), nil
+	// the handler owns the data lock: replace the old content under it
+	handler := NewFileHandler(file)
+	file.time = time.Now()
+	file.data = []byte{}
+	return handler, nil
 }
 
 // Reader return a file node reader
